@@ -137,6 +137,8 @@ class Conn(object):
     def do_write(self, data):
         data = bytes(data)
         self.written.append((self.env.clock.now, data))
+        if getattr(self.env, 'echo', False):
+            self.deliver(data)                 # a two-wire adaptor that echoes everything the host sends
         if self.env.peer is not None:
             self.env.peer.on_write(self, data)
         return len(data)
